@@ -4,7 +4,7 @@
 # Exit status / output are those of vcheck. Scratch lives in /tmp/mutwork (reused for incremental builds);
 # remove it with: tools/mutest.sh clean
 set -u
-W=/tmp/mutwork
+W="${MUTWORK:-/tmp/mutwork}"
 if [ "${1:-}" = "clean" ]; then rm -rf "$W"; exit 0; fi
 PATCH="${1:?patch}"; PROP="${2:?property}"; TIER="${3:-quick}"; SEED="${4:-1}"
 HERE="$(cd "$(dirname "${BASH_SOURCE[0]}")/.." && pwd)"
